@@ -2,7 +2,7 @@
    theorem no longer holds on the regenerated tables, the list-returning forms can still be evaluated
    to name the offending entry). *)
 From Coq Require Import ZArith QArith Qabs List String Bool.
-From UomV Require Import Model.Tables Spec.Names Spec.Anchors Gen.SiTables Gen.SiReadings.
+From UomV Require Import Model.Tables Spec.Names Spec.Anchors Gen.SiTables Gen.SiReadings Spec.RefAnchors.
 Import ListNotations.
 Open Scope string_scope.
 Definition nist_rounded : list (string * string) := [
@@ -54,6 +54,7 @@ Definition names_unique (q : quantity_decl) : bool :=
 Definition failing_exact_anchors := map fst (filter (fun a => negb (anchor_exact a)) exact_anchors).
 Definition failing_offset_anchors := map fst (filter (fun a => negb (anchor_offset a)) offset_anchors).
 Definition failing_seven_digit_anchors := map fst (filter (fun a => negb (anchor_seven a)) seven_digit_anchors).
+Definition failing_reference_values := map fst (filter (fun a => negb (anchor_exact a)) reference_values).
 Definition failing_turn_anchors := map fst (filter (fun a => negb (anchor_seven a)) turn_anchors).
 Definition failing_prefixes := List.app (map fst (filter (fun p => negb (prefix_ok10 p)) decimal_prefixes)) (map fst (filter (fun p => negb (prefix_ok2 p)) binary_prefixes)).
 Definition quantities_without_coherent_unit := map q_mod (filter (fun q => negb (has_coherent_unit q)) si_quantities).
